@@ -145,7 +145,9 @@ theorem neutral_iff (par : Params ℝ) (mq : List ℝ) (lib : Lib ℝ) :
   simp only [neutral, isZero_real, Num.real_sum]
 
 /-- EXACTLY under the code's condition a soluble particle reports zero slip velocity and the
-    ambient density; otherwise the library values pass through unchanged. -/
+    ambient density; otherwise the library values pass through unchanged.
+    (The statement "…once all released components are dissolved" at full strength is FALSE of model
+    and code — see `dissolved_neutral_full_fails`; `dissolved_neutral_partial` is what holds.) -/
 theorem dissolved_neutral (par : Params ℝ) (KT : ℝ) (x : Inp ℝ) (lib : Lib ℝ) (rhoAmb : ℝ)
     (hs : par.soluble = true) :
     (neutral par (query par KT x).2.m lib →
@@ -164,6 +166,58 @@ theorem all_released_dissolved_sum_zero (par : Params ℝ) (mq : List ℝ) (lib 
       mq.getD i 0 / par.m0.getD i 0 < par.fdis) :
     (pick true par.m0 (betaCut par mq lib)).sum = 0 :=
   pick_cutoff_sum_zero par.fdis mq par.m0 lib.beta h
+
+/-- PARTIAL form of "zero slip and neutral density once all released components are dissolved":
+    it holds when, in addition, the released masses outweigh the unreleased ones. -/
+theorem dissolved_neutral_partial (par : Params ℝ) (KT : ℝ) (x : Inp ℝ) (lib : Lib ℝ) (rhoAmb : ℝ)
+    (hs : par.soluble = true)
+    (hcut : ∀ i, i < (query par KT x).2.m.length → i < par.m0.length → 0 < par.m0.getD i 0 →
+      (query par KT x).2.m.getD i 0 / par.m0.getD i 0 < par.fdis)
+    (hdom : (pick false par.m0 (query par KT x).2.m).sum < (pick true par.m0 (query par KT x).2.m).sum) :
+    (properties par KT x lib rhoAmb).2.us = 0 ∧ (properties par KT x lib rhoAmb).2.rhoP = rhoAmb :=
+  (dissolved_neutral par KT x lib rhoAmb hs).1
+    ((neutral_iff par _ lib).mpr ⟨all_released_dissolved_sum_zero par _ lib hcut, hdom⟩)
+
+/-- The FULL-strength statement is FALSE of model and code: a fully dissolved particle (every mass
+    zero after clipping) is never neutralised — `0 > 0` fails at l.241 — so whatever the library
+    returns for a zero-mass particle (NaN in the real code) is passed on. -/
+theorem zero_mass_not_neutral (par : Params ℝ) (mq : List ℝ) (lib : Lib ℝ) (h : ∀ v ∈ mq, v = 0) :
+    ¬ neutral par mq lib := by
+  rw [neutral_iff]
+  rintro ⟨_, hlt⟩
+  rw [sum_zero_of_all_zero _ (fun v hv => h v (pick_mem _ _ _ v hv)),
+    sum_zero_of_all_zero _ (fun v hv => h v (pick_mem _ _ _ v hv))] at hlt
+  exact lt_irrefl _ hlt
+
+private noncomputable def wPar : Params ℝ :=
+  { soluble := true, K := 1, fdis := 0.001, tHyd := 0, m0 := [1], nc := 1, lag := false,
+    kbio := [0], tbio := [0] }
+private noncomputable def wInp : Inp ℝ :=
+  { m := [-1e-15], T := 300, P := 1e7, Sa := 35, Ta := 280, t := 0 }
+private noncomputable def wLib : Lib ℝ :=
+  { rhoP := 100, us := 0.2, A := 0.01, Cs := [1], beta := [0.001], betaT := 0.01 }
+
+private theorem wQuery : (query wPar 1 wInp).2.m = [0] := by
+  simp [query, clip, Num.real_zero, wPar, wInp]; norm_num
+
+/-- concrete witness: all released components are below the threshold (a slightly negative overshoot,
+    clipped to 0), yet slip velocity and density are the library's, not 0 / ambient -/
+theorem dissolved_neutral_full_fails :
+    ∃ (par : Params ℝ) (KT : ℝ) (x : Inp ℝ) (lib : Lib ℝ) (rhoAmb : ℝ), par.soluble = true ∧
+      (∀ i, i < (query par KT x).2.m.length → i < par.m0.length → 0 < par.m0.getD i 0 →
+        (query par KT x).2.m.getD i 0 / par.m0.getD i 0 < par.fdis) ∧
+      (properties par KT x lib rhoAmb).2.us = lib.us ∧ lib.us ≠ 0 ∧
+      (properties par KT x lib rhoAmb).2.rhoP = lib.rhoP ∧ lib.rhoP ≠ rhoAmb := by
+  refine ⟨wPar, 1, wInp, wLib, 1030, rfl, ?_, ?_⟩
+  · intro i hi _ _
+    rw [wQuery] at hi ⊢
+    have : i = 0 := by simpa using hi
+    subst this
+    simp [wPar]; norm_num
+  · have hn : ¬ neutral wPar (query wPar 1 wInp).2.m wLib := by
+      rw [wQuery]; exact zero_mass_not_neutral wPar [0] wLib (by simp)
+    obtain ⟨h1, h2⟩ := (dissolved_neutral wPar 1 wInp wLib 1030 rfl).2 hn
+    refine ⟨h1, ?_, h2, ?_⟩ <;> simp [wLib] <;> norm_num
 
 /-- Area, solubilities and the temperature are never altered by the neutralisation. -/
 theorem neutral_leaves_rest (par : Params ℝ) (KT : ℝ) (x : Inp ℝ) (lib : Lib ℝ) (rhoAmb : ℝ)
